@@ -780,6 +780,7 @@ fn compile(items: &[CItem]) -> Result<(Vec<ItemDiag>, bool), String> {
         .args(["check", "--message-format=json", "--offline", "-q"])
         .current_dir(&dir)
         .env("CARGO_NET_OFFLINE", "true")
+        .env("CARGO_TARGET_DIR", verif_dir().join("target").join("c16"))
         .output()
         .map_err(|e| format!("cannot run cargo: {e}"))?;
     let stdout = String::from_utf8_lossy(&out.stdout);
@@ -976,7 +977,11 @@ pub fn replay(j: &J) -> i32 {
     if std::fs::write(dir.join("src/lib.rs"), &text).is_err() {
         return 2;
     }
-    let out = Command::new("cargo").args(["check", "--message-format=json", "--offline", "-q"]).current_dir(&dir).output();
+    let out = Command::new("cargo")
+        .args(["check", "--message-format=json", "--offline", "-q"])
+        .current_dir(&dir)
+        .env("CARGO_TARGET_DIR", verif_dir().join("target").join("c16"))
+        .output();
     let Ok(out) = out else { return 2 };
     let stdout = String::from_utf8_lossy(&out.stdout);
     let mut derive_errs = vec![];
